@@ -582,7 +582,8 @@ def State.authVerification (s : State) (order src tgt : Nat) (sigOk : Bool) : St
       if isRoot s.tree tgt then (s, .err) else
       if order ≥ s.cfg.nVal then (s, .err) else
       let target := tn.ckpt
-      if (match findLink target.sup src with | some l => hasSlot l order | none => false) then (s, .ok) else
+      -- ContainsVerification scans EVERY link with that source hash (a reloaded checkpoint can hold two)
+      if target.sup.any (fun l => l.src == src && hasSlot l order) then (s, .ok) else
       let oldBest := s.bestChain
       if !(s.verifyVerification s.tree order src source.height tgt target.height sigOk) then (s, .err) else
       match s.addVerification s.tree s.ckpts tgt order src source.height with
